@@ -5,6 +5,7 @@ import ParryModel.C05.Theorems4
 import ParryModel.C05.Theorems5
 import ParryModel.C05.Theorems6
 import ParryModel.C05.Theorems7
+import ParryModel.C05.Theorems8
 /-!
 # C05 property theorems (umbrella file)
 
@@ -18,5 +19,6 @@ import ParryModel.C05.Theorems7
 * `Theorems5.lean` — fu4: tetrahedron vertex regions (returned + optimal) and `check_edge` (sound + optimal).
 * `Theorems6.lean` — fu4: `map_elements_in_local_aabb` loop structure (each cell of the range once), per-cell ids, y-cull soundness.
 * `Theorems7.lean` — fu4: `compute_pseudo_normals` is the angle-weighted sum; convex-inside half for the model's own vertex normal.
+* `Theorems8.lean` — fu4: nearest point on a height field (`project_local_point`, `_with_max_dist`), TriMesh query glue.
 `./mkaudit C05` collects the public `theorem`s of every `Theorems*.lean`.
 -/
